@@ -7,7 +7,7 @@ import (
 	"errors"
 	"fmt"
 	"io"
-	"math"
+	"math/big"
 	"sort"
 	"strconv"
 	"strings"
@@ -377,7 +377,7 @@ intLiteral
 	{
 		// remove separator "_"s
 		intStr := strings.Replace($1.Literal, "_", "", -1)
-		n, _ := strconv.ParseInt(intStr, 10, 64)
+		n := parseIntLiteral(yylex, $1.Literal, intStr, 10)
 		$$ = &ast.IntLiteral{
 			Token: $1.Literal,
 			Value: n,
@@ -390,7 +390,7 @@ intLiteral
 		lit := strings.Replace($1.Literal, "_", "", -1)
 		// remove prefix "0x"
 		intStr := lit[2:]
-		n, _ := strconv.ParseInt(intStr, 16, 64)
+		n := parseIntLiteral(yylex, $1.Literal, intStr, 16)
 		$$ = &ast.IntLiteral{
 			Token: $1.Literal,
 			Value: n,
@@ -403,7 +403,7 @@ intLiteral
 		lit := strings.Replace($1.Literal, "_", "", -1)
 		// remove prefix "0o"
 		intStr := lit[2:]
-		n, _ := strconv.ParseInt(intStr, 8, 64)
+		n := parseIntLiteral(yylex, $1.Literal, intStr, 8)
 		$$ = &ast.IntLiteral{
 			Token: $1.Literal,
 			Value: n,
@@ -416,7 +416,7 @@ intLiteral
 		lit := strings.Replace($1.Literal, "_", "", -1)
 		// remove prefix "0b"
 		intStr := lit[2:]
-		n, _ := strconv.ParseInt(intStr, 2, 64)
+		n := parseIntLiteral(yylex, $1.Literal, intStr, 2)
 		$$ = &ast.IntLiteral{
 			Token: $1.Literal,
 			Value: n,
@@ -429,13 +429,9 @@ intLiteral
 		lit := strings.Replace($1.Literal, "_", "", -1)
 		// NOTE: ToLower is nesessary (to split by both e and E)
 		toks := strings.Split(strings.ToLower(lit), "e")
-		// NOTE: cast float to deal with minus exp (i.e. `100e-2 == 1`)
-		val, _ := strconv.ParseFloat(toks[0], 64)
-		// NOTE: cannot use ParseInt (math.Pow requires float)
-		exp, _ := strconv.ParseFloat(toks[1], 64)
 		$$ = &ast.IntLiteral{
 			Token: $1.Literal,
-			Value: int64(val * math.Pow(10, exp)),
+			Value: parseExpIntLiteral(yylex, $1.Literal, toks[0], toks[1]),
 			Src: yylex.(*Lexer).Source,
 		}
 	}
@@ -445,7 +441,7 @@ floatLiteral
 	{
 		// remove separator "_"s
 		floatStr := strings.Replace($1.Literal, "_", "", -1)
-		n, _ := strconv.ParseFloat(floatStr, 64)
+		n := parseFloatLiteral(yylex, $1.Literal, floatStr)
 		$$ = &ast.FloatLiteral{
 			Token: $1.Literal,
 			Value: n,
@@ -458,11 +454,10 @@ floatLiteral
 		lit := strings.Replace($1.Literal, "_", "", -1)
 		// NOTE: ToLower is nesessary (to split by both e and E)
 		toks := strings.Split(strings.ToLower(lit), "e")
-		val, _ := strconv.ParseFloat(toks[0], 64)
-		exp, _ := strconv.ParseFloat(toks[1], 64)
 		$$ = &ast.FloatLiteral{
 			Token: $1.Literal,
-			Value: float64(val * math.Pow(10, exp)),
+			// NOTE: parse whole literal at once to obtain the nearest float
+			Value: parseFloatLiteral(yylex, $1.Literal, toks[0]+"e"+toks[1]),
 			Src: yylex.(*Lexer).Source,
 		}
 	} 
@@ -1144,7 +1139,7 @@ strLiteral
 	{
 		// unquote escape sequences here
 		// NOTE: backquotes are unwraped in Unquote
-		unquoted, _ := strconv.Unquote($1.Literal)
+		unquoted := unquoteStrLiteral(yylex, $1.Literal)
 		$$ = &ast.StrLiteral{
 			Token: $1.Literal,
 			Value: unquoted,
@@ -1246,7 +1241,7 @@ embeddedStr
 	{
 		// unquote escape sequences here
 		// NOTE: doublequotes are unwraped in Unquote
-		unquoted, _ := strconv.Unquote("\""+$2.Literal[1:])
+		unquoted := unquoteStrLiteral(yylex, "\""+$2.Literal[1:])
 		$$ = &ast.EmbeddedStr{
 			Token: $1.Token,
 			Former: $1,
@@ -1260,7 +1255,7 @@ formerStrPiece
 	{
 		// unquote escape sequences here
 		// NOTE: doublequotes are unwraped in Unquote
-		unquoted, _ := strconv.Unquote("\""+$2.Literal[1:len($2.Literal)-2]+"\"")
+		unquoted := unquoteStrLiteral(yylex, "\""+$2.Literal[1:len($2.Literal)-2]+"\"")
 		$$ = &ast.FormerStrPiece{
 			Token: $1.Token,
 			Former: $1,
@@ -1272,7 +1267,7 @@ formerStrPiece
 	{
 		// unquote escape sequences here
 		// NOTE: doublequotes are unwraped in Unquote
-		unquoted, _ := strconv.Unquote($1.Literal[:len($1.Literal)-2]+"\"")
+		unquoted := unquoteStrLiteral(yylex, $1.Literal[:len($1.Literal)-2]+"\"")
 		$$ = &ast.FormerStrPiece{
 			Token: $1.Literal,
 			Former: nil,
@@ -2103,6 +2098,54 @@ comma
 
 %%
 
+func parseIntLiteral(yylex yyLexer, literal string, intStr string, base int) int64 {
+	n, err := strconv.ParseInt(intStr, base, 64)
+	if err != nil {
+		// NOTE: do not replace the literal with another value silently
+		yylex.Error(fmt.Sprintf("int literal %s cannot be represented: %s", literal, err.Error()))
+	}
+	return n
+}
+
+func parseExpIntLiteral(yylex yyLexer, literal string, valStr string, expStr string) int64 {
+	val, ok := new(big.Int).SetString(valStr, 10)
+	exp, err := strconv.ParseInt(expStr, 10, 64)
+	if !ok || err != nil || exp > 1000 || exp < -1000 {
+		yylex.Error(fmt.Sprintf("int literal %s cannot be represented", literal))
+		return 0
+	}
+
+	// NOTE: calculate exactly (float64 cannot hold integers over 2^53 precisely)
+	if exp >= 0 {
+		val.Mul(val, new(big.Int).Exp(big.NewInt(10), big.NewInt(exp), nil))
+	} else {
+		// NOTE: minus exp is allowed (i.e. `100e-2 == 1`). fraction is truncated
+		val.Quo(val, new(big.Int).Exp(big.NewInt(10), big.NewInt(-exp), nil))
+	}
+
+	if !val.IsInt64() {
+		yylex.Error(fmt.Sprintf("int literal %s cannot be represented: value out of range", literal))
+	}
+	return val.Int64()
+}
+
+func parseFloatLiteral(yylex yyLexer, literal string, floatStr string) float64 {
+	n, err := strconv.ParseFloat(floatStr, 64)
+	if err != nil {
+		yylex.Error(fmt.Sprintf("float literal %s cannot be represented: %s", literal, err.Error()))
+	}
+	return n
+}
+
+func unquoteStrLiteral(yylex yyLexer, quoted string) string {
+	unquoted, err := strconv.Unquote(quoted)
+	if err != nil {
+		// NOTE: do not replace the literal with "" silently (i.e. undefined escape sequences)
+		yylex.Error(fmt.Sprintf("str literal %s is invalid: %s", quoted, err.Error()))
+	}
+	return unquoted
+}
+
 func Parse(src *Reader) (*ast.Program, error) {	
 	lexer := NewLexer(src)
 	prog, err := tryParse(src, lexer)
@@ -2297,12 +2340,12 @@ func tokenTypes() []simplexer.TokenType{
 		t(LT, methodOps["lt"]),
 		t(ADD_CHAIN, `[&~=]`),
 		t(MAIN_CHAIN, `[\.@$]`),
-		t(IF, `if`),
-		t(ELSE, `else`),
-		t(RETURN, `return`),
-		t(YIELD, `yield`),
-		t(RAISE, `raise`),
-		t(DEFER, `defer`),
+		t(IF, `if\b`),
+		t(ELSE, `else\b`),
+		t(RETURN, `return\b`),
+		t(YIELD, `yield\b`),
+		t(RAISE, `raise\b`),
+		t(DEFER, `defer\b`),
 		t(IDENT, ident),
 		t(PRIVATE_IDENT, fmt.Sprintf(`_+(%s)?`, ident)),
 	}
